@@ -172,6 +172,22 @@ def replay(arg):
                          "get_object_status records %d ground truth(s) twice in one frame (FP and FN)" % dup_status, rep))
         else:
             mism.append(("object-status", "get_object_status holds %d entries, critical ground truths %d" % (n_status, table["numCritical"]), rep))
+    # the same sequence as two scenes: every judgement is tallied, rates stay within [0, 1]
+    from perception_eval.common.status import get_scene_rates
+
+    st2 = get_object_status(frame_results + frame_results)
+    tot2 = sum(len(s_.total_frame_nums) for s_ in st2)
+    parts2 = sum(len(s_.tp_frame_nums) + len(s_.fp_frame_nums) + len(s_.tn_frame_nums) + len(s_.fn_frame_nums) for s_ in st2)
+    if tot2 != parts2 or tot2 != 2 * n_status:
+        mism.append(("object-status-two-scenes", "two scenes: %d total tallies, %d TP/FP/TN/FN tallies, one scene has %d" % (tot2, parts2, n_status), rep))
+    for s_ in st2:
+        for r_ in s_.get_status_rates():
+            if not (r_.rate != r_.rate or -1e-12 <= r_.rate <= 1 + 1e-12 or r_.rate == float("inf")):
+                mism.append(("status-rate-out-of-range", "ground truth %s: %s rate %r" % (s_.uuid, r_.status, r_.rate), rep))
+    if st2:
+        rates = get_scene_rates(st2)
+        if any(r_ == r_ and r_ != float("inf") and not (-1e-12 <= r_ <= 1 + 1e-12) for r_ in rates):
+            mism.append(("status-rate-out-of-range", "scene rates %s" % (rates,), rep))
     return 1, mism
 
 
